@@ -1,8 +1,9 @@
 ----------------------------- MODULE MCBuilder -----------------------------
-(* Model-checking wrapper for Builder.tla: TLC enumerates bounded pool snapshots and block  *)
-(* limits, runs the commitTransactions loop one iteration per step, checks the invariants   *)
-(* and (in simulation mode) prints finished scenarios as CASE lines for replay on the real  *)
-(* miner.                                                                                   *)
+(* Model-checking wrapper for Builder.tla: TLC composes a bounded pool snapshot and block   *)
+(* limits step by step (one generator action per choice, so that simulation can sample       *)
+(* scenarios cheaply), then runs the commitTransactions loop one iteration per step, checks  *)
+(* the invariants and - with EmitCases - prints every finished scenario as a CASE line for   *)
+(* replay on the real miner.                                                                  *)
 EXTENDS Builder, Json, TLC
 
 CONSTANTS
@@ -10,29 +11,32 @@ CONSTANTS
   Limits,      \* block gas limits, in units
   PlainAccts,  \* number of plain-transaction accounts
   BlobAccts,   \* number of blob-transaction accounts
-  MaxLen,      \* transactions per account
+  MaxLen,      \* transactions per plain account
+  BlobMaxLen,  \* transactions per blob account
   Tips,        \* effective tips
   GasShapes,   \* set of <<gas, used>> in units
   PlainCls, BlobCls,
   BlobCounts,  \* blobs per blob transaction
   MaxBlobsSet, \* miner's blob limit
   Amsterdam,   \* BOOLEAN: two-dimensional gas pool
-  StateShapes, \* Amsterdam: state-gas share (in units) moved from exec to state, {0} otherwise
+  StateShapes, \* Amsterdam: units of the used gas that are state gas, {0} otherwise
   EmitCases    \* BOOLEAN: print finished scenarios
 
 (* gas shapes selectable from a cfg (cfg files cannot write tuples) *)
+GS2 == {<<1, 1>>, <<2, 2>>}
 GS3 == {<<1, 1>>, <<2, 1>>, <<2, 2>>}
 GS5 == GS3 \cup {<<3, 1>>, <<3, 3>>}
-GS2 == {<<1, 1>>, <<2, 2>>}
 
-VARIABLES env, plain0, blob0, st
+VARIABLES gen, env, plain0, blob0, st
 
-vars == <<env, plain0, blob0, st>>
+vars == <<gen, env, plain0, blob0, st>>
 
 PlainIds == 1..PlainAccts
 BlobIds  == (PlainAccts + 1)..(PlainAccts + BlobAccts)
+NAcct    == PlainAccts + BlobAccts
+Running  == gen = NAcct + 2
 
-(* tx identity: account*10 + position; time: unique, account-major *)
+(* tx identity: account*10 + position; first-seen time: unique, account-major *)
 MkTx(a, pos, gs, tip, cls, nb, sg) ==
   [id |-> a * 10 + pos, gas |-> gs[1] * Unit, used |-> gs[2] * Unit,
    exec |-> (gs[2] - Min(sg, gs[2])) * Unit, state |-> Min(sg, gs[2]) * Unit,
@@ -41,21 +45,38 @@ MkTx(a, pos, gs, tip, cls, nb, sg) ==
 PlainTxs(a, pos) == {MkTx(a, pos, gs, t, c, 0, sg) : gs \in GasShapes, t \in Tips, c \in PlainCls, sg \in StateShapes}
 BlobTxs(a, pos)  == {MkTx(a, pos, <<1, 1>>, t, c, nb, 0) : t \in Tips, c \in BlobCls, nb \in BlobCounts}
 
-ListsOf(a, F(_, _)) ==
-  IF MaxLen = 1 THEN {<<>>} \cup {<<x>> : x \in F(a, 1)}
+ListsOf(a, F(_, _), n) ==
+  IF n = 0 THEN {<<>>}
+  ELSE IF n = 1 THEN {<<>>} \cup {<<x>> : x \in F(a, 1)}
   ELSE {<<>>} \cup {<<x>> : x \in F(a, 1)} \cup {<<x, y>> : x \in F(a, 1), y \in F(a, 2)}
 
-Init == /\ \E lim \in Limits, mb \in MaxBlobsSet :
-             env = [limit |-> lim * Unit, floor |-> 21000, maxBlobs |-> mb, amsterdam |-> Amsterdam, maxTxGas |-> 16777216]
-        /\ plain0 \in [PlainIds -> UNION {ListsOf(a, PlainTxs) : a \in PlainIds}]
-        /\ \A a \in PlainIds : plain0[a] \in ListsOf(a, PlainTxs)
-        /\ blob0 \in [BlobIds -> UNION {ListsOf(a, BlobTxs) : a \in BlobIds}]
-        /\ \A a \in BlobIds : blob0[a] \in ListsOf(a, BlobTxs)
-        /\ st = InitState(env, plain0, blob0)
+Env0 == [limit |-> 0, floor |-> 21000, maxBlobs |-> 0, amsterdam |-> Amsterdam, maxTxGas |-> 16777216]
 
-Next == /\ ~st.done
+Init == /\ gen = 0 /\ env = Env0
+        /\ plain0 = [a \in PlainIds |-> <<>>] /\ blob0 = [a \in BlobIds |-> <<>>]
+        /\ st = InitState(Env0, plain0, blob0)
+
+GenEnv == /\ gen = 0
+          /\ \E lim \in Limits, mb \in MaxBlobsSet : env' = [Env0 EXCEPT !.limit = lim * Unit, !.maxBlobs = mb]
+          /\ gen' = 1 /\ UNCHANGED <<plain0, blob0, st>>
+
+GenPlain == /\ gen \in PlainIds
+            /\ \E l \in ListsOf(gen, PlainTxs, MaxLen) : plain0' = [plain0 EXCEPT ![gen] = l]
+            /\ gen' = gen + 1 /\ UNCHANGED <<env, blob0, st>>
+
+GenBlob == /\ gen \in BlobIds
+           /\ \E l \in ListsOf(gen, BlobTxs, BlobMaxLen) : blob0' = [blob0 EXCEPT ![gen] = l]
+           /\ gen' = gen + 1 /\ UNCHANGED <<env, plain0, st>>
+
+Start == /\ gen = NAcct + 1
+         /\ st' = InitState(env, plain0, blob0)
+         /\ gen' = gen + 1 /\ UNCHANGED <<env, plain0, blob0>>
+
+Loop == /\ Running /\ ~st.done
         /\ st' = Iterate(env, st)
-        /\ UNCHANGED <<env, plain0, blob0>>
+        /\ UNCHANGED <<gen, env, plain0, blob0>>
+
+Next == GenEnv \/ GenPlain \/ GenBlob \/ Start \/ Loop
 
 Spec == Init /\ [][Next]_vars
 
@@ -68,27 +89,30 @@ ListOfAcct(a) == IF a \in PlainIds THEN plain0[a] ELSE blob0[a]
 Included(id) == \E i \in DOMAIN st.inc : st.inc[i] = id
 
 (* only executable transactions are included, each at most once *)
-OnlyOk  == \A i \in DOMAIN st.inc : TxOf(st.inc[i]).cls = "ok"
-NoDup   == \A i, j \in DOMAIN st.inc : i # j => st.inc[i] # st.inc[j]
+OnlyOk  == Running => \A i \in DOMAIN st.inc : TxOf(st.inc[i]).cls = "ok"
+NoDup   == Running => \A i, j \in DOMAIN st.inc : i # j => st.inc[i] # st.inc[j]
 (* nonce order: everything before an included transaction in its account's list was        *)
 (* included earlier or was skipped as nonce-too-low                                         *)
-NonceOrder == \A i \in DOMAIN st.inc :
+NonceOrder == Running =>
+              \A i \in DOMAIN st.inc :
                 LET id == st.inc[i]  a == id \div 10  pos == id % 10  L == ListOfAcct(a) IN
                 \A q \in 1..(pos - 1) :
                    \/ L[q].cls = "nonceLow"
                    \/ \E j \in 1..(i - 1) : st.inc[j] = L[q].id
 (* limits of the block being built *)
-BlobLimit == st.blobs <= env.maxBlobs /\ st.blobs = SumBlobs(IncTxs)
-GasLimit  == BlockGasUsed(env, st.gp) <= env.limit
-(* THE PROPERTY (gas/blob/validity dimension): the importer accepts what the builder built *)
-ImportValid == ImportAccepts(env, IncTxs, BlockGasUsed(env, st.gp), env.maxBlobs)
-(* the loop terminates within a bounded number of iterations *)
-Progress == Len(st.inc) + Len(st.rev) <= Cardinality(AllTxs)
+BlobLimit == Running => (st.blobs <= env.maxBlobs /\ st.blobs = SumBlobs(IncTxs))
+GasLimit  == Running => BlockGasUsed(env, st.gp) <= env.limit
+(* THE PROPERTY (gas / blob / executability dimension): the importer accepts what the builder built *)
+ImportValid == Running => ImportAccepts(env, IncTxs, BlockGasUsed(env, st.gp), env.maxBlobs)
+(* every transaction is tried at most once: the loop terminates *)
+Progress == Running => Len(st.inc) + Len(st.rev) <= Cardinality(AllTxs)
 (* a tried-and-failed transaction is never included *)
-RevDisjoint == \A r \in DOMAIN st.rev : ~Included(st.rev[r].id)
+RevDisjoint == Running => \A r \in DOMAIN st.rev : ~Included(st.rev[r].id)
+(* nothing executable that still fits is left behind at the head of a heap *)
+NoFitLeft == (Running /\ st.done /\ st.gp.remaining >= env.floor) => (Heads(st.plain) = {} /\ Heads(st.blob) = {})
 
-Emit == IF EmitCases /\ st.done
-        THEN PrintT(<<"CASE", ToJson([env |-> env, plain |-> plain0, blob |-> blob0,
+Emit == IF EmitCases /\ Running /\ st.done
+        THEN PrintT(<<"CASE", ToJson([env |-> env, plain |-> [a \in PlainIds |-> plain0[a]], blob |-> [a \in 1..BlobAccts |-> blob0[PlainAccts + a]],
                                       inc |-> st.inc, rev |-> st.rev, gasUsed |-> BlockGasUsed(env, st.gp)])>>)
         ELSE TRUE
 =============================================================================
